@@ -65,12 +65,12 @@ def concrete(s, params):
     return go(s)
 
 
-def weight(s):
-    """number of *, / and libm nodes: only expressions with weight >= 1 are outlined"""
+def weight(s, all_ops=False):
+    """number of *, / and libm nodes (with all_ops also + - neg): only expressions with weight >= 1 are outlined"""
     if s[0] in ('a', 'k'):
         return 0
-    w = 1 if s[0] in ('mul', 'div', 'fn') else 0
-    return w + sum(weight(x) for x in (s[2:] if s[0] == 'fn' else s[1:]))
+    w = 1 if (s[0] in ('mul', 'div', 'fn') or all_ops) else 0
+    return w + sum(weight(x, all_ops) for x in (s[2:] if s[0] == 'fn' else s[1:]))
 
 
 def declaration(name, s):
@@ -208,22 +208,21 @@ class P:
 
 
 def expand(text, decls):
-    """Replace every FPX(...) in a contract file; collects needed declarations into decls {name: text}."""
+    """Replace every FPX(...) / FPXA(...) in a contract file; collects needed declarations into decls {name: text}.
+    FPX outlines trees that contain * / or libm; FPXA (used with outline_fp='all') also pure + - trees."""
     out = []
     i = 0
     while True:
-        j = text.find('FPX(', i)
-        if j < 0 or (j > 0 and (text[j - 1].isalnum() or text[j - 1] == '_')):
-            if j < 0:
-                out.append(text[i:])
-                break
-            out.append(text[i:j + 4])
-            i = j + 4
-            continue
+        m = re.compile(r'(?<![A-Za-z0-9_])FPXA?\(').search(text, i)
+        if not m:
+            out.append(text[i:])
+            break
+        j = m.start()
+        all_ops = text[j:m.end()] == 'FPXA('
         out.append(text[i:j])
         # find balanced end
         depth = 0
-        k = j + 3
+        k = m.end() - 1
         while True:
             ch = text[k]
             if ch == '(':
@@ -233,13 +232,13 @@ def expand(text, decls):
                 if depth == 0:
                     break
             k += 1
-        inner = text[j + 4:k]
+        inner = text[m.end():k]
         p = P(inner)
         s = p.expr()
         p.ws()
         if p.i != len(inner):
             raise ValueError('FPX: trailing text in %r' % inner)
-        if weight(s) == 0:
+        if weight(s, all_ops) == 0:
             out.append('(' + concrete(s, p.atoms) + ')')
         else:
             name = symbol(s)
